@@ -372,7 +372,7 @@ def draw_opts(rng):
         'frac': 0.02 if use_weather else rng.choice([0.02, 0.02, 0.01]),
         # lower heating value of the fuel: low-energy fuels make the first-pass trip-fuel
         # residual negative (more burned than estimated)
-        'lhv': rng.choice([43.8e6, 43.8e6, 43.8e6, 30e6, 15e6]),
+        'lhv': rng.choice([43.8e6, 43.8e6, 43.8e6, 30e6, 15e6, 10e6, 5e6]),
     }
 
 
